@@ -59,6 +59,17 @@ def build_calendar(spec, anchor=MON):
         lo = a - 20 * DAY
         hi = a + 20 * DAY + timedelta(hours=23, minutes=59, seconds=59, microseconds=999999)
         return WeeklyCalendar(start=lo, end=hi, days=[0, 1, 2, 3, 4], units_per_day=8) | FixedCalendar(4)
+    if spec in ('from_noon', 'until_noon', 'fixed_from_noon', 'fixed_until_noon'):
+        # validity bound at noon of the anchor day (forward) / of the day before the deadline (backward)
+        noon = a + timedelta(hours=12)
+        prev_noon = a - DAY + timedelta(hours=12)
+        if spec == 'from_noon':
+            return WeeklyCalendar(start=noon, days=[0, 1, 2, 3, 4, 5, 6], units_per_day=8) | WeeklyCalendar(end=prev_noon - 2 * DAY, days=[0, 1, 2, 3, 4, 5, 6], units_per_day=8)
+        if spec == 'until_noon':
+            return WeeklyCalendar(end=noon, days=[0, 1, 2, 3, 4, 5, 6], units_per_day=8) | WeeklyCalendar(start=noon + 3 * DAY, days=[0, 1, 2, 3, 4, 5, 6], units_per_day=8)
+        if spec == 'fixed_from_noon':
+            return FixedCalendar(8, start=prev_noon) 
+        return FixedCalendar(8, end=noon) | FixedCalendar(8, start=noon + 2 * DAY)
     if spec == 'dec03':
         return WeeklyCalendar(days=[0, 1, 2, 3, 4], units_per_day=0.3)
     if spec == 'dec07':
